@@ -28,7 +28,7 @@ def dsir_req(c, G, idx, li, infs, recs, impl_inftime=None):
 
 def deterministic(ctx, drv):
     reqs, metas = [], []
-    for _ in range(ctx.scale(300, 4000)):
+    for _ in range(ctx.scale(800, 5000)):
         c = allsims.gen_case(ctx.rng, "discrete_SIR")
         if c["init"]["kind"] not in ("list", "single"):
             c["init"] = dict(kind="list", nodes=[0])
@@ -150,7 +150,7 @@ def one_step_law(ctx, drv, sis, nmax, limit):
 def wrappers(ctx, drv):
     """basic_discrete_SIR == discrete_SIR with the default rule on the same draws; percolation_based == discrete_SIR on H"""
     import EoN, EoN.simulation as sim
-    for _ in range(ctx.scale(100, 1500)):
+    for _ in range(ctx.scale(250, 2000)):
         c = allsims.gen_case(ctx.rng, "basic_discrete_SIR")
         if c["init"]["kind"] not in ("list", "single"):
             c["init"] = dict(kind="list", nodes=[0])
@@ -179,7 +179,7 @@ def wrappers(ctx, drv):
             ctx.violation("basic_discrete_SIR(G,p,...) does not start/run the same epidemic as discrete_SIR with the default rule on the same draws",
                           dict(rep, wrapper=dict(times=out["times"], cols=out["cols"]), direct=refo))
     reqs, metas = [], []
-    for _ in range(ctx.scale(100, 1500)):
+    for _ in range(ctx.scale(250, 2000)):
         c = allsims.gen_case(ctx.rng, "percolation_based_discrete_SIR")
         if c["init"]["kind"] not in ("list", "single"):
             c["init"] = dict(kind="list", nodes=[0])
